@@ -106,6 +106,7 @@ def extract_result_table() -> dict:
     try:
         tree = ast.parse(path.read_text())
         classes = {n.name: n for n in tree.body if isinstance(n, ast.ClassDef)}
+        helpers = {n.name: n for n in tree.body if isinstance(n, ast.FunctionDef)}
         for own in CLS:
             fn = next(f for f in classes[own].body if isinstance(f, ast.FunctionDef) and f.name == "combine")
             for other in CLS:
@@ -136,14 +137,12 @@ def extract_result_table() -> dict:
                     ok = False
                     act = "self"
                 table[(own, other)] = act
+            for s in _join_separators(fn, helpers):
+                if sep is None:
+                    sep = s
+                elif sep != s:
+                    ok = False
             for n in ast.walk(fn):
-                if (isinstance(n, ast.Call) and isinstance(n.func, ast.Attribute) and n.func.attr == "join"
-                        and isinstance(n.func.value, ast.Constant)):
-                    s = n.func.value.value
-                    if sep is None:
-                        sep = s
-                    elif sep != s:
-                        ok = False
                 if isinstance(n, ast.keyword) and n.arg == "delay" and own == "Retry":
                     v = n.value
                     if isinstance(v, ast.Call) and isinstance(v.func, ast.Name):
@@ -187,6 +186,26 @@ def extract_result_table() -> dict:
     changed = _write("ResultTable.lean", "\n".join(lines))
     info.update({"ok": ok, "rewritten": changed, "delay_op": delay_op, "sep": sep})
     return info
+
+
+def _join_separators(fn, helpers, depth: int = 3) -> list[str]:
+    """the constants `c` of every `c.join(...)` in `fn` and in the module-level helpers it calls
+    (a refactor may move the joining of messages / locations into a helper)"""
+    out = []
+    seen = set()
+
+    def walk(f, d):
+        for n in ast.walk(f):
+            if (isinstance(n, ast.Call) and isinstance(n.func, ast.Attribute) and n.func.attr == "join"
+                    and isinstance(n.func.value, ast.Constant) and isinstance(n.func.value.value, str)):
+                out.append(n.func.value.value)
+            elif (isinstance(n, ast.Call) and isinstance(n.func, ast.Name) and n.func.id in helpers
+                    and n.func.id not in seen and d > 0):
+                seen.add(n.func.id)
+                walk(helpers[n.func.id], d - 1)
+
+    walk(fn, depth)
+    return out
 
 
 def _contains_return(node) -> bool:
